@@ -126,7 +126,9 @@ fn prefix_case(src: &mut Src, ctx: &mut Ctx) -> Result<(), String> {
 }
 
 // ---- (ii) single-token faults -----------------------------------------------------------------------------
-const REPLACEMENTS: &[&str] = &["END", ";", "42", "-0.5", "\"abc", "MACRO", "PIN", "LAYER", "RECT", "PORT", "VERSION", "UNITS", "PROPERTY", "BEGINEXT", "ENDEXT", "ITERATE", "DO", "SITE", "VIA", "LIBRARY", "#"];
+const REPLACEMENTS: &[&str] = &["END", ";", "42", "-0.5", "\"abc", "MACRO", "PIN", "LAYER", "RECT", "PORT", "VERSION", "UNITS", "PROPERTY", "BEGINEXT", "ENDEXT", "ITERATE", "DO", "SITE", "VIA", "LIBRARY", "#",
+    // numbers at the edges of the 96-bit decimal type behind every LEF number
+    "79228162514264337593543950335", "-79228162514264337593543950335", "99999999999999999999999999999", "7922816251426433759354395033.5", "0.0000000000000000000000000001", "123456789012345678901234567890123456789"];
 fn faults_per_token() -> u64 {
     3 + REPLACEMENTS.len() as u64
 }
@@ -212,7 +214,7 @@ fn soup(src: &mut Src) -> String {
             2 => s.push(';'),
             3 => s.push_str(&gen_name(src)),
             4 => s.push_str(*src.pick(ODD)),
-            5 => s.push_str(*src.pick(&["1e6", "-", ".", "1.2.3", "--1", "1e999", "nan", "inf", "0x10", "18T", "\"unterminated", "\"q\"", "# c", "+5"])),
+            5 => s.push_str(*src.pick(&["1e6", "-", ".", "1.2.3", "--1", "1e999", "nan", "inf", "0x10", "18T", "\"unterminated", "\"q\"", "# c", "+5", "79228162514264337593543950335", "-79228162514264337593543950335", "99999999999999999999999999999", "0.0000000000000000000000000001", "10000000000000000000000000000"])),
             _ => {
                 let c = char::from_u32(src.below(0x11_0000) as u32).unwrap_or('x');
                 s.push(c);
@@ -258,7 +260,7 @@ fn scaling_case(src: &mut Src, ctx: &mut Ctx) -> Result<(), String> {
 
 fn run(run: &mut Run) {
     engine::journal::set_hang_ms(30_000);
-    run.rule("Base texts: 40 LEF texts rendered from generated libraries (half with lexical variation, a quarter with non-ASCII comments) + the repository's macro.lef. (i) every prefix at every character boundary; (ii) every single-token fault at every token (delete, duplicate, swap, replace by each of 21 keywords/numbers/punctuation/unterminated string); (iii) proptest-driven insertion of multi-byte, odd-whitespace and delimiter characters anywhere; (iv) token soup of keywords, numbers, names and arbitrary Unicode scalars; allocation scaling. Oracle: LefLibrary::open returns (panics caught; aborts and hangs caught by the supervising process with a CPU limit), also on the error-report path; an Ok library can be written and re-read without a crash. Non-trivial = faulted text differs from its base; distinct by hash of the text.");
+    run.rule("Base texts: 40 LEF texts rendered from generated libraries (half with lexical variation, a quarter with non-ASCII comments) + the repository's macro.lef. (i) every prefix at every character boundary; (ii) every single-token fault at every token (delete, duplicate, swap, replace by each of 27 keywords/numbers (incl. the extremes of the 96-bit decimal type)/punctuation/unterminated string); (iii) proptest-driven insertion of multi-byte, odd-whitespace and delimiter characters anywhere; (iv) token soup of keywords, numbers, names and arbitrary Unicode scalars; allocation scaling. Oracle: LefLibrary::open returns (panics caught; aborts and hangs caught by the supervising process with a CPU limit), also on the error-report path; an Ok library can be written and re-read without a crash. Non-trivial = faulted text differs from its base; distinct by hash of the text.");
     run.assume("termination = returns before the hang watchdog (30 s in flight) / 20 s CPU in isolation; linear time approximated by allocation volume at most doubling when the input doubles");
     run.min_nontrivial = 1000;
     run.enumerate("prefixes", *prefix_table().last().unwrap(), &prefix_case);
